@@ -33,6 +33,9 @@ pub struct ReadState {
     pub bytes: u64,
     /// Largest `buf.len()` a read was offered (lower bound of the connection's buffer size).
     pub max_buf_len: usize,
+    /// Largest `bytes delivered so far + buf.len()`: while the connection has not reset its cursors
+    /// (single-frame cases) this is the length of its receive buffer.
+    pub max_extent: u64,
     /// Progress counter shared with the write half, for "poll until quiescent" drivers.
     pub progress: u64,
 }
@@ -137,6 +140,10 @@ impl ReadHalf for SimRead {
             st.polls += 1;
             if buf.len() > st.max_buf_len {
                 st.max_buf_len = buf.len();
+            }
+            let extent = st.bytes + buf.len() as u64;
+            if extent > st.max_extent {
+                st.max_extent = extent;
             }
             match st.script.pop_front() {
                 None => Poll::Pending,
